@@ -30,7 +30,8 @@ ASSUMPTIONS = [
     "Digit strings with leading zeros for twp/rge are not generated.",
 ]
 MIN_NONTRIVIAL = {'quick': 20000, 'thorough': 200000}
-REQUIRED_MONITORS = ['contract:trs_to_dict', 'construct', 'wrap',
+REQUIRED_MONITORS = ['contract:trs_to_dict', 'construct', 'construct:ocr_scrub',
+                     'wrap',
                      'wrap-nonstandard', 'eq-hash', 'tract-trs']
 
 ALPHABET = "0123456789nsewNSEWxXzZ_ -/:."
@@ -109,6 +110,17 @@ def _check_construct(ctx, rep, pytrs, t, ns, r, ew, s, tenc, renc, senc,
                       'default_ew': 'e' if ew == 'w' else 'w'}
             obj = pytrs.TRS.from_twprgesec(tv, rv, sv, **kw)
             got = obj.trs
+            # ocr_scrub only re-reads look-alike LETTERS inside the numbers;
+            # on clean digits (+ direction letter) it must change nothing.
+            if (t + r + s) % 3 == 0:
+                ctx.hit('construct:ocr_scrub')
+                o2 = pytrs.TRS.from_twprgesec(tv, rv, sv, ocr_scrub=True, **kw)
+                if o2.trs != got:
+                    ctx.violation(
+                        'ocr_scrub-changes-clean-components', case,
+                        f"from_twprgesec({tv!r},{rv!r},{sv!r},{kw}) -> {got!r}"
+                        f" but with ocr_scrub=True -> {o2.trs!r}",
+                        dedup=f"{tenc}|{renc}")
             tr = pytrs.Tract.from_twprgesec('x', tv, rv, sv, **kw)
         finally:
             MC.default_ns, MC.default_ew = saved
